@@ -283,8 +283,6 @@ where
             #[cfg(feature = "verif-hooks")]
             vhost::verif::hold("c.state", index as u64);
             self.update_vring_registration(vring, index as u8)?;
-        #[cfg(feature = "verif-hooks")]
-        vhost::verif::hold("c.epoll", index as u64);
             #[cfg(feature = "verif-hooks")]
             vhost::verif::hold("c.epoll", index as u64);
         }
@@ -322,8 +320,6 @@ where
                 #[cfg(feature = "verif-hooks")]
                 vhost::verif::hold("c.state", index as u64);
                 self.update_vring_registration(vring, index as u8)?;
-        #[cfg(feature = "verif-hooks")]
-        vhost::verif::hold("c.epoll", index as u64);
                 #[cfg(feature = "verif-hooks")]
                 vhost::verif::hold("c.epoll", index as u64);
             #[cfg(feature = "verif-hooks")]
